@@ -782,6 +782,106 @@ theorem c13_linetree_search_complete (sqrtF fabsF : K → K) (k ε W old0 old1 d
 
 end prune
 
+/-! ## 7. what the step hands to the search -/
+section stepinput
+variable {K : Type} [Field K] [LinearOrder K] [IsStrictOrderedRing K]
+
+/-- **the collision search never sees a particle that left the box** (open boundary, end of
+    `reb_simulation_step`, rebound.c:153-166, with C15's model of `reb_boundary_check`): after the
+    boundary check — and, with a tree, the tree update that `tree_needs_update` triggers — every
+    particle in the array is inside the box and unflagged, and every particle that was inside is
+    still there.  Skipping that tree update leaves `y = NaN` particles in the array, for which every
+    rejection test of the DIRECT / LINE searches is false. -/
+theorem c13_search_input_inside_box (bx bY bz : K) (teo clamp : Bool) (s : Sim (Part K))
+    (hnf : ∀ p ∈ s.ps, p.flagged = false) :
+    (∀ p ∈ (searchInputOpen bx bY bz teo clamp s).ps, outsideBox bx bY bz p = false ∧ p.flagged = false) ∧
+    (∀ p ∈ s.ps, outsideBox bx bY bz p = false → p ∈ (searchInputOpen bx bY bz teo clamp s).ps) := by
+  unfold searchInputOpen
+  cases ht : s.tree
+  · -- no tree: the removal loops of boundary.c
+    simp only [Bool.false_eq_true, if_false]
+    cases teo
+    · simp only [Bool.false_eq_true, if_false]
+      have hp := RV.C15.openLoop_zero (outsideBox bx bY bz) s.ps
+      constructor
+      · intro p hpm
+        have := (hp.mem_iff).mp hpm
+        simp only [List.mem_filter, Bool.not_eq_true'] at this
+        exact ⟨this.2, hnf p this.1⟩
+      · intro p hpm ho
+        exact (hp.mem_iff).mpr (by simp [List.mem_filter, hpm, ho])
+    · simp only [if_true]
+      rw [RV.C15.openLoopSorted_eq]
+      simp only [List.take_zero, List.drop_zero, List.nil_append]
+      constructor
+      · intro p hpm
+        simp only [List.mem_filter, Bool.not_eq_true'] at hpm
+        exact ⟨hpm.2, hnf p hpm.1⟩
+      · intro p hpm ho
+        simp [List.mem_filter, hpm, ho]
+  · -- tree: flagged by the boundary check, dropped by the tree update
+    simp only [if_true]
+    have markmem : ∀ (l : List (Part K)) (q : Part K), q ∈ RV.Boundary.openMark (outsideBox bx bY bz) flagPart l →
+        q.flagged = false → outsideBox bx bY bz q = false ∧ q ∈ l := by
+      intro l q hq hqf
+      have gen : ∀ (l' : List (Part K)), q ∈ l'.map (fun a => if outsideBox bx bY bz a then flagPart a else a) →
+          outsideBox bx bY bz q = false ∧ q ∈ l' := by
+        intro l' h
+        simp only [List.mem_map] at h
+        obtain ⟨a, ha, rfl⟩ := h
+        by_cases ho : outsideBox bx bY bz a = true
+        · simp [ho, flagPart] at hqf
+        · simp only [ho, Bool.false_eq_true, if_false]
+          exact ⟨by simpa using ho, ha⟩
+      rcases l with _ | ⟨a, _ | ⟨b, r⟩⟩
+      · simp [RV.Boundary.openMark] at hq
+      · simp only [RV.Boundary.openMark] at hq
+        by_cases ho : outsideBox bx bY bz a = true
+        · simp [ho] at hq
+        · simp only [ho, Bool.false_eq_true, if_false, List.mem_singleton] at hq
+          subst hq
+          exact ⟨by simpa using ho, by simp⟩
+      · exact gen _ (by simpa [RV.Boundary.openMark] using hq)
+    have key : ∀ q ∈ RV.Boundary.openMark (outsideBox bx bY bz) flagPart s.ps,
+        (q.flagged = false → outsideBox bx bY bz q = false ∧ q ∈ s.ps) ∧ True :=
+      fun q hq => ⟨fun hqf => markmem s.ps q hq hqf, trivial⟩
+    have surv : ∀ p ∈ s.ps, outsideBox bx bY bz p = false →
+        p ∈ RV.Boundary.openMark (outsideBox bx bY bz) flagPart s.ps := by
+      intro p hpm ho
+      rcases hl : s.ps with _ | ⟨a, _ | ⟨b, r⟩⟩
+      · rw [hl] at hpm; simp at hpm
+      · rw [hl] at hpm
+        simp only [List.mem_singleton] at hpm
+        subst hpm
+        simp [RV.Boundary.openMark, ho]
+      · rw [hl] at hpm
+        simp only [RV.Boundary.openMark, List.mem_map]
+        exact ⟨p, hpm, by simp [ho]⟩
+    unfold purgeFlagged
+    simp only [ht, Bool.true_and]
+    split
+    · constructor
+      · intro p hpm
+        simp only [List.mem_filter, Bool.not_eq_true'] at hpm
+        exact ⟨((key p hpm.1).1 hpm.2).1, hpm.2⟩
+      · intro p hpm ho
+        simp only [List.mem_filter, Bool.not_eq_true']
+        exact ⟨surv p hpm ho, hnf p hpm⟩
+    · rename_i hany
+      have hall : ∀ q ∈ RV.Boundary.openMark (outsideBox bx bY bz) flagPart s.ps, q.flagged = false := by
+        intro q hq
+        by_contra hne
+        apply hany
+        simp only [List.any_eq_true]
+        exact ⟨q, hq, by simpa using hne⟩
+      constructor
+      · intro p hpm
+        exact ⟨((key p hpm).1 (hall p hpm)).1, hall p hpm⟩
+      · intro p hpm ho
+        exact surv p hpm ho
+
+end stepinput
+
 /-! ## 6. hypotheses are satisfiable -/
 
 /-- a concrete instance of `c13_fixup_invariant`'s hypotheses: four particles, identities
